@@ -1,3 +1,224 @@
-import MgModel.C05.TsPool
-namespace MgProof.C05
-end MgProof.C05
+import MgProof.C05.Lemmas
+import MgModel.C05.RingPool
+/-! Invariant of the ring-pool model (`MgModel.C05.Ring.step`) for histories that are legal so
+far (`illegal = 0`, `misuse = 0`). -/
+namespace MgProof.C05.Ring
+open MgModel.Conc MgModel.C05 MgModel.C05.Ring
+
+/-- thread is inside `muggle_ring_memory_pool_alloc` (after taking the lock, if any) -/
+def inAlloc : Pc → Bool
+  | .r1 | .r2 _ | .w1 _ _ | .r3 _ | .w2 _ _ | .ld _ | .wIn _ | .rUnlock _ => true
+  | _ => false
+
+structure Core (s : St) : Prop where
+  dbl : s.g.double = 0
+  own : ∀ b, s.g.owned b = true ↔ s.loc b = .client
+  use : ∀ b, s.inUse b = 0 → s.loc b = .pool ∨ ∃ t, s.loc b = .taken t
+  tk  : ∀ b t, s.loc b = .taken t → s.pc t = .wIn b ∨ s.pc t = .rUnlock b
+  tk1 : ∀ b t, s.pc t = .wIn b → s.loc b = .taken t
+  tk2 : ∀ b t, s.pc t = .rUnlock b → s.loc b = .taken t
+  ex  : ∀ t t', inAlloc (s.pc t) = true → inAlloc (s.pc t') = true → t = t'
+  lk  : s.locked = true → s.wlock = 0 → ∀ t, inAlloc (s.pc t) = false
+  sg  : s.locked = false → ∀ t, inAlloc (s.pc t) = true → t = s.allocTid
+  fr  : ∀ b t, s.pc t = .fSt b → s.loc b = .freeing t
+  ul  : ∀ b t, s.pc t = .rUnlock b → s.inUse b ≠ 0
+  nl  : ∀ t, (s.pc t = .rLock ∨ s.pc t = .rYield) → s.locked = true
+
+def Legal (s : St) : Prop := s.g.illegal = 0 ∧ s.misuse = 0
+
+def Inv (s : St) : Prop := Legal s → Core s
+
+theorem nextPc_not (rest : List Op) : inAlloc (nextPc rest) = false ∧ (∀ b, nextPc rest ≠ .fSt b) ∧
+    (∀ b, nextPc rest ≠ .wIn b) ∧ (∀ b, nextPc rest ≠ .rUnlock b) ∧ nextPc rest ≠ .rLock ∧
+    nextPc rest ≠ .rYield := by
+  unfold nextPc; split <;> simp [inAlloc]
+
+/-- program counters whose step only moves the thread inside `alloc` (lock, index walk, flag load) -/
+def simplePc : Pc → Bool
+  | .rLock | .rYield | .r1 | .r2 _ | .w1 _ _ | .r3 _ | .w2 _ _ | .ld _ => true
+  | _ => false
+
+theorem step_inv_a {s s' : St} {tok : Tok} {ev : List String} (inv : Inv s)
+    (hs : step s tok = some (s', ev)) (hpc : simplePc (s.pc tok.tid) = true) : Inv s' := by
+  intro hl'
+  unfold step at hs
+  simp only [] at hs
+  split at hs
+  · simp at hs
+  split at hs
+  all_goals (try (rename_i hpc'; simp [hpc', simplePc] at hpc; done))
+  · -- rLock
+    split at hs <;>
+    (injection hs with hs; injection hs with hs _; subst hs
+     obtain ⟨c1,c2,c3,c4,c5,c5',c6,c7,c8,c9,c10,c11⟩ := inv hl'
+     constructor <;> grind [inAlloc, upd])
+  · -- rYield
+    injection hs with hs; injection hs with hs _; subst hs
+    obtain ⟨c1,c2,c3,c4,c5,c5',c6,c7,c8,c9,c10,c11⟩ := inv hl'
+    constructor <;> grind [inAlloc, upd]
+  · -- r1
+    injection hs with hs; injection hs with hs _; subst hs
+    obtain ⟨c1,c2,c3,c4,c5,c5',c6,c7,c8,c9,c10,c11⟩ := inv hl'
+    constructor <;> grind [inAlloc, upd]
+  · -- r2
+    injection hs with hs; injection hs with hs _; subst hs
+    obtain ⟨c1,c2,c3,c4,c5,c5',c6,c7,c8,c9,c10,c11⟩ := inv hl'
+    constructor <;> grind [inAlloc, upd]
+  · -- w1
+    injection hs with hs; injection hs with hs _; subst hs
+    obtain ⟨c1,c2,c3,c4,c5,c5',c6,c7,c8,c9,c10,c11⟩ := inv hl'
+    constructor <;> grind [inAlloc, upd]
+  · -- r3
+    injection hs with hs; injection hs with hs _; subst hs
+    obtain ⟨c1,c2,c3,c4,c5,c5',c6,c7,c8,c9,c10,c11⟩ := inv hl'
+    constructor <;> grind [inAlloc, upd]
+  · -- w2
+    injection hs with hs; injection hs with hs _; subst hs
+    obtain ⟨c1,c2,c3,c4,c5,c5',c6,c7,c8,c9,c10,c11⟩ := inv hl'
+    constructor <;> grind [inAlloc, upd]
+  · -- ld: a clear flag means the block is in the pool (nobody else is inside alloc)
+    split at hs
+    · simp at hs
+    split at hs <;>
+    (injection hs with hs; injection hs with hs _; subst hs
+     obtain ⟨c1,c2,c3,c4,c5,c5',c6,c7,c8,c9,c10,c11⟩ := inv hl'
+     constructor <;> grind [inAlloc, upd])
+
+theorem finish_inv {s : St} {t b w : Nat} {iu : Nat → Nat} {evs : List String} (inv : Inv s)
+    (hloc : Legal s → s.loc b = .taken t) (huse : Legal s → iu b ≠ 0) (hiu : ∀ b', b' ≠ b → iu b' = s.inUse b')
+    (hpc : Legal s → inAlloc (s.pc t) = true) :
+    Inv (finish { s with wlock := w, inUse := iu } t b evs).1 := by
+  intro hl'
+  unfold finish at hl' ⊢
+  obtain ⟨a1, a2, a3, -, -⟩ := allocDone_some s.g t (s.pub t) b
+  have hl : Legal s := by
+    unfold Legal at hl' ⊢
+    simp only [a3] at hl'
+    exact hl'
+  obtain ⟨c1,c2,c3,c4,c5,c5',c6,c7,c8,c9,c10,c11⟩ := inv hl
+  have hloc := hloc hl
+  have huse := huse hl
+  have hpc := hpc hl
+  obtain ⟨n1, n2, n3, n4, n5, n6⟩ := nextPc_not (s.prog t)
+  have hnot : s.g.owned b = false := by
+    cases h : s.g.owned b with
+    | false => rfl
+    | true => have := (c2 b).mp h; rw [hloc] at this; cases this
+  constructor
+  · simp only [a2, hnot]; simpa using c1
+  · intro b'; simp only [a1]; grind [upd]
+  · grind [upd]
+  · grind [upd]
+  · grind [upd]
+  · grind [upd, inAlloc]
+  · grind [upd, inAlloc]
+  · grind [upd, inAlloc]
+  · grind [upd]
+  · grind [upd]
+  · grind [upd]
+  · grind [upd]
+
+theorem step_inv_b {s s' : St} {tok : Tok} {ev : List String} (inv : Inv s)
+    (hs : step s tok = some (s', ev)) (hpc : (∃ b, s.pc tok.tid = .wIn b) ∨ (∃ b, s.pc tok.tid = .rUnlock b) ∨ (∃ b, s.pc tok.tid = .fSt b)) : Inv s' := by
+  unfold step at hs
+  simp only [] at hs
+  split at hs
+  · simp at hs
+  split at hs
+  all_goals (try (rename_i hpc'; simp [hpc'] at hpc; done))
+  · -- wIn
+    rename_i blk hpc'
+    split at hs
+    · intro hl'
+      injection hs with hs; injection hs with hs _; subst hs
+      obtain ⟨c1,c2,c3,c4,c5,c5',c6,c7,c8,c9,c10,c11⟩ := inv hl'
+      constructor <;> grind [inAlloc, upd]
+    · injection hs with hs; have h1 := congrArg Prod.fst hs; simp only at h1; subst h1
+      have := @finish_inv s tok.tid blk s.wlock (upd s.inUse blk 1) [s!"T{tok.tid} w in_use[{blk}] 1"] inv
+        (fun hl => (inv hl).tk1 blk tok.tid hpc') (fun _ => by simp) (by intro b' hb; simp [upd, hb])
+        (fun _ => by rw [hpc']; rfl)
+      exact this
+  · -- rUnlock
+    rename_i blk hpc'
+    injection hs with hs; have h1 := congrArg Prod.fst hs; simp only at h1; subst h1
+    have := @finish_inv s tok.tid blk 0 s.inUse [s!"T{tok.tid} st write_spinlock 0 rel"] inv
+        (fun hl => (inv hl).tk2 blk tok.tid hpc') (fun hl => (inv hl).ul blk tok.tid hpc') (by intro b' hb; rfl)
+        (fun _ => by rw [hpc']; rfl)
+    exact this
+  · -- fSt
+    rename_i b hpc'
+    intro hl'
+    injection hs with hs; injection hs with hs _; subst hs
+    obtain ⟨c1,c2,c3,c4,c5,c5',c6,c7,c8,c9,c10,c11⟩ := inv hl'
+    obtain ⟨n1, n2, n3, n4, n5, n6⟩ := nextPc_not (s.prog tok.tid)
+    constructor <;> grind [inAlloc, upd]
+theorem step_inv_idle {s s' : St} {tok : Tok} {ev : List String} (inv : Inv s)
+    (hs : step s tok = some (s', ev)) (hpc : s.pc tok.tid = .idle) : Inv s' := by
+  unfold step at hs
+  simp only [hpc] at hs
+  split at hs
+  · simp at hs
+  split at hs
+  · simp at hs
+  rename_i op rest hprog
+  have bo := beginOp_owned s.g tok.tid s.cap op
+  have bd := beginOp_double s.g tok.tid s.cap op
+  have bi := beginOp_illegal s.g tok.tid s.cap op
+  obtain ⟨n1, n2, n3, n4, n5, n6⟩ := nextPc_not rest
+  split at hs
+  · -- no operand
+    injection hs with hs; injection hs with hs _; subst hs
+    intro hl'
+    have hl : Legal s := by
+      unfold Legal at hl' ⊢; simp only [bi] at hl'; exact hl'
+    obtain ⟨c1,c2,c3,c4,c5,c5',c6,c7,c8,c9,c10,c11⟩ := inv hl
+    constructor <;> grind [inAlloc, upd]
+  · -- allocation
+    injection hs with hs; injection hs with hs _; subst hs
+    intro hl'
+    have hl : Legal s ∧ (s.locked = false → tok.tid = s.allocTid) := by
+      unfold Legal at hl' ⊢; simp only [bi] at hl'
+      obtain ⟨h1, h2⟩ := hl'
+      split at h2
+      · rename_i hc; exact ⟨⟨h1, h2⟩, by grind⟩
+      · omega
+    obtain ⟨hl, hat⟩ := hl
+    obtain ⟨c1,c2,c3,c4,c5,c5',c6,c7,c8,c9,c10,c11⟩ := inv hl
+    constructor <;> grind [inAlloc, upd]
+  · -- free
+    rename_i b hb
+    injection hs with hs; injection hs with hs _; subst hs
+    intro hl'
+    obtain ⟨ho, hi0⟩ := freeBegin_legal hl'.1
+    obtain ⟨f1, f2, f3, -, -⟩ := freeBegin_false_owned (g := (beginOp s.g tok.tid s.cap op).1) (t := tok.tid) ho
+    have hl : Legal s := ⟨by rw [← bi]; exact hi0, hl'.2⟩
+    obtain ⟨c1,c2,c3,c4,c5,c5',c6,c7,c8,c9,c10,c11⟩ := inv hl
+    simp only [ho, if_true]
+    constructor
+    · simp only [f2, bd]; exact c1
+    · intro b'; simp only [f1, bo]; grind [upd]
+    all_goals grind [inAlloc, upd]
+
+theorem step_inv {s s' : St} {tok : Tok} {ev : List String} (inv : Inv s)
+    (hs : step s tok = some (s', ev)) : Inv s' := by
+  cases hpc : s.pc tok.tid with
+  | idle => exact step_inv_idle inv hs hpc
+  | wIn b => exact step_inv_b inv hs (Or.inl ⟨b, hpc⟩)
+  | rUnlock b => exact step_inv_b inv hs (Or.inr (Or.inl ⟨b, hpc⟩))
+  | fSt b => exact step_inv_b inv hs (Or.inr (Or.inr ⟨b, hpc⟩))
+  | done =>
+    unfold step at hs; simp only [hpc] at hs
+    split at hs <;> simp at hs
+  | _ => exact step_inv_a inv hs (by rw [hpc]; rfl)
+
+theorem init_inv (cap n : Nat) (locked : Bool) (progs : List (List Op)) : Inv (mkInit cap n locked progs) := by
+  intro _
+  have np := fun t => nextPc_not (progs.getD t [])
+  constructor <;> simp only [mkInit] <;> grind
+
+/-- every state reachable by any schedule satisfies the invariant -/
+theorem reach_inv {cap n : Nat} {locked : Bool} {progs : List (List Op)} {s : St}
+    (hr : Reach step (mkInit cap n locked progs) s) : Inv s :=
+  Reach.inv Inv (init_inv cap n locked progs) (fun _ _ _ _ inv hs => step_inv inv hs) s hr
+
+end MgProof.C05.Ring
